@@ -41,7 +41,8 @@ KONS = {
     "KD": lambda n: W.Dflt(),                              # no argument at all: every field from its default
     "K0": lambda n: W.Hand0(),                             # hand-written __init__(self), no argument
 }
-DECL = {"DB": "Base", "DS": "Sub", "DH": "Hand", "DU": "USub", "DD": "Dflt", "D0": "Hand0"}
+DECL = {"DB": "Base", "DS": "Sub", "DH": "Hand", "DU": "USub", "DD": "Dflt", "D0": "Hand0",
+        "DBc": "Base", "DSk": "Sub"}     # DBc: with a condition (v.k >= 1); DSk: predicate form with a field constraint
 SYMB = ("YB", "YH", "YS")
 MAX_Q = 2
 
@@ -132,7 +133,14 @@ def run_case(hist, inst):
                     del log[:]
                 elif op in DECL:
                     cls = W.CLASSES[DECL[op]]
-                    if op in ("DB", "DH", "DD", "D0"):
+                    if op == "DBc":                       # a condition that every instance satisfies
+                        v = let(cls)
+                        with symbolic_mode():
+                            q = an(entity(v, v.k >= 0))
+                    elif op == "DSk":                     # Sub(v=7): every Sub is constructed with the default v
+                        with symbolic_mode():
+                            q = an(entity(cls(v=7)))
+                    elif op in ("DB", "DH", "DD", "D0"):
                         v = let(cls)
                         with symbolic_mode():
                             q = an(entity(v))
@@ -194,7 +202,7 @@ LEGEND = ("KB=Base(n, 7) KS=Sub(k=n) KU=USub(n, w=3) KH=Hand(n) KO=Other(p=n) KD
           "YB=`with symbolic_mode(): Base(k=1)` YS=`with symbolic_mode(): Sub()` YH=`with rule_mode(): Hand(k=1)`; "
           "R=list(infer(entity(Sub(k=x.p), x.p >= 1)).evaluate()) over two Items; C=clear the registry (as test/conftest.py); "
           "DB=declare q=an(entity(let(Base))) DH=let(Hand) DD=let(Dflt) D0=let(Hand0) DS=`with symbolic_mode(): "
-          "an(entity(Sub()))` DU=USub(); "
+          "an(entity(Sub()))` DU=USub() DBc=an(entity(v := let(Base), v.k >= 0)) DSk=an(entity(Sub(v=7))); "
           "E<i>=list(q<i>.evaluate())")
 
 
